@@ -218,7 +218,11 @@ func URIFromHash(hash *Hash) *url.URL {
 		uri.Host = host.String()
 	}
 	if port, ok := hash.Get4(`port`); ok {
-		uri.Host = fmt.Sprintf(`%s:%d`, uri.Host, port.(integerValue).Int())
+		pn, ok := port.(integerValue)
+		if !ok {
+			panic(argError(`port`, DefaultIntegerType(), port))
+		}
+		uri.Host = fmt.Sprintf(`%s:%d`, uri.Host, pn.Int())
 	}
 	if path, ok := hash.Get4(`path`); ok {
 		uri.Path = path.String()
